@@ -1,6 +1,7 @@
 package main
 
 import (
+	"golang.org/x/tools/go/ssa"
 	"fmt"
 	"go/types"
 	"math/big"
@@ -1055,6 +1056,28 @@ func (p *Prog) elabAtom(fx *Fx, x *SExp, env *Env) Val {
 	}
 	if m, ok := p.Macros[a]; ok && len(m.Params) == 0 {
 		return p.elab(fx, m.Body, env)
+	}
+	if fx != nil && fx.exitLenient && fx.Fn != nil {
+		// a source-level local that was not defined on the paths reaching this exit: an arbitrary value
+		// (the clause must hold whatever it is -- normally its guard is false on such paths)
+		if cached, ok := fx.undefNames[a]; ok {
+			return cached
+		}
+		for _, b := range fx.Fn.Blocks {
+			for _, ins := range b.Instrs {
+				if d, ok := ins.(*ssa.DebugRef); ok && !d.IsAddr && d.Object() != nil && d.Object().Name() == a {
+					if _, isVar := d.Object().(*types.Var); isVar {
+						v := freshVal(d.X.Type(), "undef!"+a)
+						v.T = d.X.Type()
+						if fx.undefNames == nil {
+							fx.undefNames = map[string]Val{}
+						}
+						fx.undefNames[a] = v
+						return v
+					}
+				}
+			}
+		}
 	}
 	efail("unbound name %s", a)
 	return Val{}
